@@ -10,9 +10,20 @@ QE = "nifty.cl.minimization.quadratic_energy"
 IE = "nifty.cl.operators.inversion_enabler"
 
 
-def status_discipline(ctx, rule, fi, energy_name="energy", ctrl_names=("controller", "self._controller")):
+def controller_names(fi):
+    names = {"self._controller", "self.controller"}
+    for st in walk_no_nested(fi.node):
+        if isinstance(st, ast.Assign) and src(st.value) in ("self._controller", "self.controller"):
+            for t in st.targets:
+                if isinstance(t, ast.Name):
+                    names.add(t.id)
+    return names
+
+
+def status_discipline(ctx, rule, fi, energy_name="energy", ctrl_names=None):
     """Every return of (energy, status) carries (a) the verdict the controller just gave for that very energy,
     (b) ERROR, or (c) CONVERGED under a dominating exact-zero test."""
+    ctrl_names = ctrl_names or controller_names(fi)
     cfg = cfg_of(fi)
     rd = cfg.reaching_defs(fi.params())
     rets = [n for n in cfg.nodes if n.kind == "stmt" and isinstance(n.ast, ast.Return)]
@@ -67,7 +78,8 @@ def status_discipline(ctx, rule, fi, energy_name="energy", ctrl_names=("controll
     return n_ret
 
 
-def every_iteration_checks(ctx, rule, fi, ctrl_names=("controller", "self._controller")):
+def every_iteration_checks(ctx, rule, fi, ctrl_names=None):
+    ctrl_names = ctrl_names or controller_names(fi)
     cfg = cfg_of(fi)
     loops = [n for n in cfg.nodes if n.kind == "test" and n.loop is not None]
     for L in loops:
@@ -131,32 +143,52 @@ def run(ctx):
         ctx.und("R14.2", f"{call.key}::at_with_grad", f"{len(awg)} call sites", call)
     else:
         n_, c = awg[0]
-        P = inline_at(cfg, rd, n_.id, c.args[0], stop=("energy", "d", "r", "q", "alpha"))
-        R = c.args[1]
-        if isinstance(R, ast.Name):
-            ds = rd[n_.id].get(R.id, frozenset())
+
+        def one_def(name):
+            ds = rd[n_.id].get(name, frozenset())
             if len(ds) == 1:
                 dn = cfg.nodes[next(iter(ds))]
                 if dn.kind == "stmt" and isinstance(dn.ast, ast.Assign):
-                    R = dn.ast.value
-        # P = energy.position (+|-) alpha * d ;  R = r (+|-) q * alpha
-        def split(e, base_txt):
-            if isinstance(e, ast.BinOp) and isinstance(e.op, (ast.Add, ast.Sub)) and src(e.left) == base_txt \
-                    and isinstance(e.right, ast.BinOp) and isinstance(e.right.op, ast.Mult):
-                return (1 if isinstance(e.op, ast.Add) else -1), {src(e.right.left), src(e.right.right)}
+                    return dn.ast.value
+            return None
+        P = c.args[0]
+        R = c.args[1]
+        if isinstance(P, ast.Name):
+            P = one_def(P.id) or P
+        rname = R.id if isinstance(R, ast.Name) else None
+        if rname:
+            R = one_def(rname) or R
+
+        def split(e, base_ok):
+            if isinstance(e, ast.BinOp) and isinstance(e.op, (ast.Add, ast.Sub)) and base_ok(e.left) \
+                    and isinstance(e.right, ast.BinOp) and isinstance(e.right.op, ast.Mult) \
+                    and isinstance(e.right.left, ast.Name) and isinstance(e.right.right, ast.Name):
+                return (1 if isinstance(e.op, ast.Add) else -1), {e.right.left.id, e.right.right.id}
             return None, None
-        sp, fp = split(P, "energy.position")
-        sr, fr = split(R, "r")
+        ename = call.params()[1]
+        sp, fp = split(P, lambda b: src(b) == f"{ename}.position")
+        sr, fr = split(R, lambda b: isinstance(b, ast.Name) and b.id == rname)
         key = f"{call.key}::at_with_grad(x -/+ alpha*d, r -/+ alpha*A d) signs and factors agree"
         if sp is None or sr is None:
             ctx.und("R14.2", key, f"position `{src(P)}`, gradient `{src(R)}`", call, c)
         else:
-            qdef = inline_at(cfg, rd, n_.id, ast.Name(id="q", ctx=ast.Load()), depth=1)
-            q_ok = src(qdef) in ("energy.apply_metric(d)",)
-            ctx.check("R14.2", key, sp == sr and fp == {"alpha", "d"} and fr == {"alpha", "q"} and q_ok,
-                      f"position `{src(P)}`, gradient `{src(R)}`, q = `{src(qdef)}`", call, c)
-        adef = inline_at(cfg, rd, n_.id, ast.Name(id="alpha", ctx=ast.Load()), depth=1)
-        ctx.check("R14.2", f"{call.key}::alpha = <r, P r> / <d, A d>", src(adef) == "previous_gamma / curv", src(adef), call)
+            common = fp & fr          # the step length
+            dn_ = fp - common         # the direction
+            qn_ = fr - common         # A applied to the direction
+            okk = len(common) == 1 and len(dn_) == 1 and len(qn_) == 1
+            qdef = one_def(next(iter(qn_))) if okk else None
+            q_ok = qdef is not None and src(qdef) == f"{ename}.apply_metric({next(iter(dn_))})" if okk else False
+            ctx.check("R14.2", key, okk and sp == sr and q_ok,
+                      f"position `{src(P)}`, gradient `{src(R)}`, A d = `{src(qdef) if qdef is not None else None}`", call, c)
+            if okk:
+                adef = one_def(next(iter(common)))
+                good = isinstance(adef, ast.BinOp) and isinstance(adef.op, ast.Div)
+                if good:
+                    num, den = one_def(src(adef.left)) if isinstance(adef.left, ast.Name) else None, \
+                        one_def(src(adef.right)) if isinstance(adef.right, ast.Name) else None
+                    dtxt = src(den) if den is not None else ""
+                    good = den is not None and f"{next(iter(dn_))}.s_vdot({next(iter(qn_))})" in dtxt
+                ctx.check("R14.2", f"{call.key}::alpha = <r, P r> / <d, A d>", good, src(adef) if adef is not None else None, call)
     Q = m.cls(QE, "QuadraticEnergy")
     ctx.saw_class(Q)
     awgf = Q.methods["at_with_grad"]
@@ -187,6 +219,13 @@ def run(ctx):
     init = Q.methods["__init__"]
     ctx.saw_func(init)
     pos, A, b, g = init.params()[1:5]
+    # the local that holds A x: the argument of s_vdot in the value assignment
+    axname = None
+    for st in walk_no_nested(init.node):
+        if isinstance(st, ast.Assign) and any(is_self_attr(t, "_value") for t in st.targets):
+            for c_ in ast.walk(st.value):
+                if isinstance(c_, ast.Call) and call_name(c_) == "s_vdot" and c_.args and isinstance(c_.args[0], ast.Name):
+                    axname = c_.args[0].id
     for grad_given in (True, False):
         for b_given in (True, False):
             env = {g: {"G": 1}, b: {"B": 1}, "self._b": {"B": 1}, f"self._A(self._position)": {"AX": 1}, f"self._A({pos})": {"AX": 1}}
@@ -194,11 +233,15 @@ def run(ctx):
 
             def ev_if(e):
                 while isinstance(e, ast.IfExp):
-                    t = src(e.test)
+                    tt, flip = e.test, False
+                    while isinstance(tt, ast.UnaryOp) and isinstance(tt.op, ast.Not):
+                        tt, flip = tt.operand, not flip
+                    t = src(tt)
+                    yes, no = (e.orelse, e.body) if flip else (e.body, e.orelse)
                     if t == f"{b} is None":
-                        e = e.orelse if b_given else e.body
+                        e = no if b_given else yes
                     elif t == f"{b} is not None":
-                        e = e.body if b_given else e.orelse
+                        e = yes if b_given else no
                     else:
                         return None
                 return e
@@ -206,23 +249,27 @@ def run(ctx):
             def walk(body):
                 for st in body:
                     if isinstance(st, ast.If):
-                        t = src(st.test)
+                        tt, flip = st.test, False
+                        while isinstance(tt, ast.UnaryOp) and isinstance(tt.op, ast.Not):
+                            tt, flip = tt.operand, not flip
+                        t = src(tt)
+                        yes, no = (st.orelse, st.body) if flip else (st.body, st.orelse)
                         if t == f"{g} is not None":
-                            walk(st.body if grad_given else st.orelse)
+                            walk(yes if grad_given else no)
                         elif t == f"{g} is None":
-                            walk(st.orelse if grad_given else st.body)
+                            walk(no if grad_given else yes)
                         elif t == f"{b} is not None":
-                            walk(st.body if b_given else st.orelse)
+                            walk(yes if b_given else no)
                         elif t == f"{b} is None":
-                            walk(st.orelse if b_given else st.body)
+                            walk(no if b_given else yes)
                     elif isinstance(st, ast.Assign) and len(st.targets) == 1:
                         tgt = src(st.targets[0])
-                        if tgt in ("Ax", "self._grad"):
+                        if isinstance(st.targets[0], ast.Name) or tgt == "self._grad":
                             e = ev_if(st.value)
                             vals[tgt] = _lin(e, {**env, **{k: v for k, v in vals.items() if v is not None}}) if e is not None else None
             walk(init.node.body)
             key = f"{init.key}::Ax - grad == {'b' if b_given else '0'} [grad {'given' if grad_given else 'computed'}, b {'given' if b_given else 'None'}]"
-            ax, gr = vals.get("Ax"), vals.get("self._grad")
+            ax, gr = vals.get(axname), vals.get("self._grad")
             if ax is None or gr is None:
                 ctx.und("R14.3", key, f"Ax={ax}, grad={gr}", init)
                 continue
@@ -236,7 +283,7 @@ def run(ctx):
     body = [st for st in init.node.body]
     vassign = [st for st in walk_no_nested(init.node) if isinstance(st, ast.Assign) and any(is_self_attr(t, "_value") for t in st.targets)]
     vaug = [st for st in walk_no_nested(init.node) if isinstance(st, ast.AugAssign) and is_self_attr(st.target, "_value")]
-    okv = len(vassign) == 1 and src(vassign[0].value) in ("0.5 * self._position.s_vdot(Ax).real", "0.5 * Ax.s_vdot(self._position).real")
+    okv = len(vassign) == 1 and axname is not None and src(vassign[0].value) in (f"0.5 * self._position.s_vdot({axname}).real", f"0.5 * {axname}.s_vdot(self._position).real")
     ctx.check("R14.3", f"{init.key}::value starts as 0.5*Re<x, Ax>", okv, src(vassign[0].value) if vassign else None, init)
     okb = len(vaug) == 1 and isinstance(vaug[0].op, ast.Sub) and src(vaug[0].value) in (f"{b}.s_vdot(self._position).real", f"self._position.s_vdot({b}).real")
     ctx.check("R14.3", f"{init.key}::value subtracts Re<b, x> when b is given", okb, src(vaug[0]) if vaug else None, init)
